@@ -341,9 +341,10 @@ def source_model(draw, palette, library=None, vb=None, max_shapes=6, solid_only=
 
 
 @st.composite
-def shape_library(draw, max_n=3):
+def shape_library(draw, max_n=3, kinds=None):
     n = draw(st.integers(1, max_n))
-    return [{"cmds": draw(unit_shape()), "size": draw(st.floats(0.04, 0.2))} for _ in range(n)]
+    shape = unit_shape(kinds) if kinds else unit_shape()
+    return [{"cmds": draw(shape), "size": draw(st.floats(0.04, 0.2))} for _ in range(n)]
 
 
 # ------------------------------------------------------------------------------ rendering
